@@ -138,8 +138,8 @@ func (x *ctx) callStatic(st *state, fr *frame, callee *ssa.Function, bind []val,
 		return outs
 	}
 	if con := x.w.contracts[key]; con != nil && callee.Parent() == nil && !(x.spec > 0 && con.Flags["inline"]) &&
-		!(x.con != nil && x.con.Flags["bodies"] && con.PkgPath == x.con.PkgPath) {
-		// (a `bodies` harness executes the real code of its own package instead of the contracts)
+		!(x.con != nil && x.con.Flags["bodies"] && (con.PkgPath == x.con.PkgPath || !con.Flags["assumed"])) {
+		// (a `bodies` harness executes the real code instead of contracts: of every function of its own package, and of the verified functions of other packages; assumed contracts of other packages stay in force)
 		if x.spec > 0 && !con.Flags["pure"] {
 			// real functions called from specifications are inlined (they must be side-effect free)
 			return x.inline(st, fr, callee, bind, args)
